@@ -9,7 +9,11 @@
 //   text           : operator<< then operator>> on every finite pattern (default stream, precision 5)
 //   arith-half-rhs : quick all 2^16 lhs x ~1900 boundary rhs x 4 ops; thorough all 2^32 ordered pairs x 4 ops
 //   arith-float-rhs: all 2^16 lhs x boundary float alphabet x 4 ops
-//   halfFunction   : 3 functors x 9 domains x all 2^16 entries
+//   arith-float-rhs-result-boundaries: += and -= with the float rhs chosen so that the exact result sits on / one float
+//                    ulp beside a half rounding boundary (quick: every finite lhs x the midpoints next to the boundary
+//                    half patterns; thorough: every finite lhs x every midpoint)
+//   text-sequential: all finite halves written into ONE stream, separated by single spaces, read back in sequence
+//   halfFunction   : 5 instantiations x 18 domains x all 2^16 entries, default build and IMATH_HAVE_LARGE_STACK build
 // Oracles are written from the definitions: engine/halfref.hpp decodes/encodes binary16 independently
 // of half.h, the float operation is one IEEE single-precision operation (this TU is built without
 // -ffast-math on x86-64/SSE, so `a op b` on floats is exactly that), integers / long double (64-bit
@@ -400,12 +404,12 @@ static void stage_text ()
 // operation propagates depends on operand order, which the compiler may commute).
 struct ArithTally
 {
-    long long nan = 0, ovf = 0, sub = 0, tie = 0, zero_from_nonzero = 0, generic = 0, n = 0;
+    long long nan = 0, ovf = 0, sub = 0, tie = 0, zero_from_nonzero = 0, generic = 0, n = 0, nank[3] = {0, 0, 0};
     void classify (float fa, float fb, uint32_t rbits, uint16_t want)
     {
         ++n;
         uint32_t ab = rbits & 0x7fffffffu;
-        if (is_nan32 (rbits)) ++nan;
+        if (is_nan32 (rbits)) { ++nan; ++nank[(std::isnan (fa) && std::isnan (fb)) ? 2 : (std::isnan (fa) || std::isnan (fb)) ? 0 : 1]; }
         else if (is_inf16 (want) && std::isfinite (fa) && std::isfinite (fb)) ++ovf;
         else if (is_half_tie (ab)) ++tie;
         else if ((want & 0x7c00) == 0 && (want & 0x3ff)) ++sub;
@@ -417,9 +421,32 @@ struct ArithTally
         std::string p = pfx;
         R ().cls (p + ".nan-result", nan); R ().cls (p + ".overflow-to-infinity", ovf); R ().cls (p + ".subnormal-result", sub);
         R ().cls (p + ".exact-tie-in-final-rounding", tie); R ().cls (p + ".zero-from-nonzero-operands", zero_from_nonzero); R ().cls (p + ".generic", generic);
+        R ().cls (p + ".nan-result.exactly-one-nan-operand", nank[0]); R ().cls (p + ".nan-result.invalid-operation-on-non-nan-operands", nank[1]);
+        R ().cls (p + ".nan-result.two-nan-operands", nank[2]);
     }
-    void operator+= (const ArithTally& o) { nan += o.nan; ovf += o.ovf; sub += o.sub; tie += o.tie; zero_from_nonzero += o.zero_from_nonzero; generic += o.generic; n += o.n; }
+    void operator+= (const ArithTally& o) { for (int k = 0; k < 3; ++k) nank[k] += o.nank[k]; nan += o.nan; ovf += o.ovf; sub += o.sub; tie += o.tie; zero_from_nonzero += o.zero_from_nonzero; generic += o.generic; n += o.n; }
 };
+
+// NaN results. "converting to float, operating once in float and converting back" fixes more than NaN-ness wherever one
+// IEEE single operation does: (a) exactly one NaN operand: the result is that operand quieted (sign and payload kept),
+// whatever the operand order; (b) no NaN operand (inf-inf, 0*inf, 0/0, inf/inf): the default NaN of the platform; both are
+// what the harness's own single float operation returns, so the expected half is f2h_ref of that. (c) two NaN operands:
+// x86 returns the first *source* operand quieted and the compiler may commute + and *, so the result must be one of the
+// two operands quieted (converted), not a particular one.
+// returns 0 = fine, 1 = not a NaN at all, 2 = wrong sign/payload (class in `kind`: 0 one-NaN, 1 invalid-operation, 2 two-NaN)
+static inline int nan_verdict (uint32_t fa_bits, uint32_t fb_bits, uint32_t rbits, uint16_t got, int& kind)
+{
+    const bool na = is_nan32 (fa_bits), nb = is_nan32 (fb_bits);
+    kind = (na && nb) ? 2 : (na || nb) ? 0 : 1;
+    if (!is_nan16 (got)) return 1;
+    if (kind == 2)
+    {
+        uint16_t qa = href::f2h_ref (fa_bits | 0x00400000u), qb = href::f2h_ref (fb_bits | 0x00400000u);
+        return (got == qa || got == qb) ? 0 : 2;
+    }
+    return got == href::f2h_ref (rbits) ? 0 : 2;
+}
+static const char* NANKIND[3] = {".nan-result-sign-payload.one-nan-operand", ".nan-result-sign-payload.invalid-operation", ".nan-result-sign-payload.two-nan-operands"};
 
 // A change that breaks an operator fails on ~10^8 cases; R().fail (mutex + string formatting) is therefore
 // called for at most FAIL_CAP cases per (chunk, operator); the exact number of failing cases per site is
@@ -482,7 +509,7 @@ static void stage_arith_half ()
     std::atomic<long long> done (0);
     bool complete = parallel_chunks (N, 1ull << 18, [&] (uint64_t lo, uint64_t hi, unsigned) {
         ArithTally t;
-        long long  bad[4] = {0, 0, 0, 0};
+        long long  bad[4] = {0, 0, 0, 0}, badnan[4][3] = {{0, 0, 0}, {0, 0, 0}, {0, 0, 0}, {0, 0, 0}};
         for (uint64_t i = lo; i < hi; ++i)
         {
             uint16_t b = rhs[(size_t) (i >> 16)], a = (uint16_t) (i & 0xffff);
@@ -493,12 +520,20 @@ static void stage_arith_half ()
                 uint32_t rb   = href::fbits (fop (op, fa, fb));
                 uint16_t want = href::f2h_ref (rb), got = apply<half> (op, a, hbv);
                 t.classify (fa, fb, rb, want);
-                bool ok = is_nan32 (rb) ? is_nan16 (got) : got == want;
+                int kind = 0, nv = is_nan32 (rb) ? nan_verdict (href::fbits (fa), href::fbits (fb), rb, got, kind) : 0;
+                bool ok = is_nan32 (rb) ? nv != 1 : got == want;
                 if (!ok && ++bad[op] <= FAIL_CAP)
                     R ().fail (std::string (OPW[op]) + ": half::operator" + OPN[op] + "(half)", "lhs " + hx (a, 4) + " rhs " + hx (b, 4), is_nan32 (rb) ? "a NaN" : hx (want, 4), hx (got, 4));
+                if (nv == 2 && ++badnan[op][kind] <= FAIL_CAP)
+                    R ().fail (std::string (OPW[op]) + ": half::operator" + OPN[op] + "(half)" + NANKIND[kind], "lhs " + hx (a, 4) + " rhs " + hx (b, 4),
+                               kind == 2 ? hx (href::f2h_ref (href::fbits (fa) | 0x400000u), 4) + " or " + hx (href::f2h_ref (href::fbits (fb) | 0x400000u), 4) : hx (want, 4), hx (got, 4));
             }
         }
-        for (int op = 0; op < 4; ++op) mismatch_total (std::string (OPW[op]) + ": half::operator" + OPN[op] + "(half)", bad[op]);
+        for (int op = 0; op < 4; ++op)
+        {
+            mismatch_total (std::string (OPW[op]) + ": half::operator" + OPN[op] + "(half)", bad[op]);
+            for (int k = 0; k < 3; ++k) mismatch_total (std::string (OPW[op]) + ": half::operator" + OPN[op] + "(half)" + NANKIND[k], badnan[op][k]);
+        }
         done += (long long) (hi - lo);
         std::lock_guard<std::mutex> g (mu);
         total += t;
@@ -537,7 +572,7 @@ static void stage_arith_float ()
     std::atomic<long long> done (0);
     bool complete = parallel_chunks (N, 1ull << 18, [&] (uint64_t lo, uint64_t hi, unsigned) {
         ArithTally t;
-        long long  bad[4] = {0, 0, 0, 0};
+        long long  bad[4] = {0, 0, 0, 0}, badnan[4][3] = {{0, 0, 0}, {0, 0, 0}, {0, 0, 0}, {0, 0, 0}};
         for (uint64_t i = lo; i < hi; ++i)
         {
             uint32_t ub = rhs[(size_t) (i >> 16)];
@@ -548,12 +583,20 @@ static void stage_arith_float ()
                 uint32_t rb   = href::fbits (fop (op, fa, fb));
                 uint16_t want = href::f2h_ref (rb), got = apply<float> (op, a, fb);
                 t.classify (fa, fb, rb, want);
-                bool ok = is_nan32 (rb) ? is_nan16 (got) : got == want;
+                int kind = 0, nv = is_nan32 (rb) ? nan_verdict (href::fbits (fa), ub, rb, got, kind) : 0;
+                bool ok = is_nan32 (rb) ? nv != 1 : got == want;
                 if (!ok && ++bad[op] <= FAIL_CAP)
                     R ().fail (std::string (OPW[op]) + ": half::operator" + OPN[op] + "(float)", "lhs " + hx (a, 4) + " rhs float " + hx (ub, 8), is_nan32 (rb) ? "a NaN" : hx (want, 4), hx (got, 4));
+                if (nv == 2 && ++badnan[op][kind] <= FAIL_CAP)
+                    R ().fail (std::string (OPW[op]) + ": half::operator" + OPN[op] + "(float)" + NANKIND[kind], "lhs " + hx (a, 4) + " rhs float " + hx (ub, 8),
+                               kind == 2 ? hx (href::f2h_ref (href::fbits (fa) | 0x400000u), 4) + " or " + hx (href::f2h_ref (ub | 0x400000u), 4) : hx (want, 4), hx (got, 4));
             }
         }
-        for (int op = 0; op < 4; ++op) mismatch_total (std::string (OPW[op]) + ": half::operator" + OPN[op] + "(float)", bad[op]);
+        for (int op = 0; op < 4; ++op)
+        {
+            mismatch_total (std::string (OPW[op]) + ": half::operator" + OPN[op] + "(float)", bad[op]);
+            for (int k = 0; k < 3; ++k) mismatch_total (std::string (OPW[op]) + ": half::operator" + OPN[op] + "(float)" + NANKIND[k], badnan[op][k]);
+        }
         done += (long long) (hi - lo);
         std::lock_guard<std::mutex> g (mu);
         total += t;
@@ -570,76 +613,148 @@ static void stage_arith_float ()
 }
 
 // ------------------------------------------------------------------------------------------------
-// halfFunction<T>
-struct Ident { float operator() (half x) const { return (float) x; } };
-struct Square { float operator() (half x) const { float f = (float) x; return f * f; } };
-struct Recorder
+// += / -= with a float rhs aimed at the *result's* rounding boundaries. For a finite lhs a and a midpoint t between two
+// adjacent half magnitudes (either sign; including the overflow midpoint 65520), d = t - a (for +=) or a - t (for -=) is
+// exact in double (a and t are multiples of 2^-25 below 2^17: <= 42 significant bits). Three float targets are aimed at: t
+// itself and the floats immediately below and above t (a perturbation of the rhs smaller than the float spacing at t would
+// be absorbed by the float operation: the statement's "operating once in float" is a double rounding). For each target s
+// the rhs candidates are the float(s) bracketing the exact s - a (one float if it is representable, else both neighbours),
+// so the float sum lands on t (a tie in the final rounding), on its float neighbours, or one step further. The oracle is
+// the same as everywhere: one IEEE single operation, then f2h_ref.
+static void stage_arith_float_boundaries ()
 {
-    int* calls; // shared: the functor is passed by value
-    uint32_t operator() (half x) const { ++calls[x.bits ()]; return 0x10000u + x.bits (); }
-};
-
-struct Dom { uint16_t lo, hi; const char* name; };
-
-template <class T, class F, class Direct>
-static void check_table (const char* fname, const F& f, const Dom* dom, T dflt, T pinf, T ninf, T nanv, Direct direct, const int* calls,
-                         long long* tallies /* in, default, +inf, -inf, nan, endpoint */)
-{
-    std::unique_ptr<halfFunction<T>> fn;
-    if (dom) fn.reset (new halfFunction<T> (f, hb (dom->lo), hb (dom->hi), dflt, pinf, ninf, nanv));
-    else fn.reset (new halfFunction<T> (f)); // all defaults: [-HALF_MAX, HALF_MAX], every marker 0
-    const float dlo = dom ? REFV[dom->lo] : -65504.0f, dhi = dom ? REFV[dom->hi] : 65504.0f;
-    if (!dom) { dflt = pinf = ninf = nanv = 0; }
-    const std::string dn = std::string (fname) + " domain " + (dom ? dom->name : "default [-HALF_MAX,HALF_MAX]");
-    for (uint32_t i = 0; i < 65536; ++i)
-    {
-        const float v = REFV[i];
-        T           want;
-        bool        in = false;
-        if (std::isnan (v)) { want = nanv; ++tallies[4]; }
-        else if (std::isinf (v)) { want = v > 0 ? pinf : ninf; ++tallies[v > 0 ? 2 : 3]; }
-        else if (v < dlo || v > dhi) { want = dflt; ++tallies[1]; }
-        else { want = direct (hb ((uint16_t) i)); in = true; ++tallies[0]; if (v == dlo || v == dhi) ++tallies[5]; }
-        T got = (*fn) (hb ((uint16_t) i));
-        if (!ex::same (got, want))
+    // midpoints as exact doubles, by the format definition: magnitude pattern h -> value(h), value(h+1)
+    auto mag = [] (uint32_t h15) -> double { uint32_t e = h15 >> 10, m = h15 & 0x3ff; return e == 0 ? ldexp ((double) m, -24) : ldexp ((double) (1024 + m), (int) e - 25); };
+    std::vector<uint16_t> below; // magnitude patterns h (0 .. 0x7bff) whose upper midpoint (h, h+1) is a target
+    if (R ().thorough ()) for (uint32_t h = 0; h < 0x7c00; ++h) below.push_back ((uint16_t) h);
+    else
+    {   // midpoints on both sides of every boundary pattern (same significand alphabet as arith-half-rhs: 33 boundary
+        // significands x every finite exponent)
+        std::vector<uint16_t> ms = {0, 0x155, 0x2aa};
+        for (int k = 0; k < 10; ++k) { ms.push_back ((uint16_t) (1u << k)); ms.push_back ((uint16_t) ((2u << k) - 1)); ms.push_back ((uint16_t) (0x3ff & ~((1u << k) - 1))); }
+        for (uint32_t e = 0; e < 31; ++e)
+            for (uint16_t m : ms)
+            {
+                uint32_t h = (e << 10) | m;
+                below.push_back ((uint16_t) h);
+                if (h) below.push_back ((uint16_t) (h - 1));
+            }
+        std::sort (below.begin (), below.end ());
+        below.erase (std::unique (below.begin (), below.end ()), below.end ());
+    }
+    std::vector<double> mids; // signed
+    for (uint16_t h : below) { double t = (mag (h) + mag ((uint32_t) h + 1)) / 2; mids.push_back (t); mids.push_back (-t); }
+    std::vector<uint16_t> lhs;
+    for (uint32_t i = 0; i < 65536; ++i) if ((i & 0x7c00) != 0x7c00) lhs.push_back ((uint16_t) i);
+    const uint64_t N = (uint64_t) mids.size () * lhs.size ();
+    std::mutex     mu;
+    ArithTally     total;
+    std::atomic<long long> done (0), c_exact_tie (0), c_d_not_float (0), c_off_tie (0), c_rhs_not_half (0);
+    bool complete = parallel_chunks (N, 1ull << 16, [&] (uint64_t lo, uint64_t hi, unsigned) {
+        ArithTally t;
+        long long  bad[2] = {0, 0}, l_tie = 0, l_nf = 0, l_off = 0, l_nh = 0;
+        for (uint64_t i = lo; i < hi; ++i)
         {
-            const char* cls = std::isnan (v) ? "nan" : std::isinf (v) ? "infinity" : in ? ((v == dlo || v == dhi) ? "domain-endpoint" : "in-domain") : "out-of-domain";
-            R ().fail (std::string ("halfFunction.table.") + cls, dn + " x=half " + hx (i, 4), fmt (want), fmt (got));
+            const uint16_t a  = lhs[(size_t) (i % lhs.size ())];
+            const double   tm = mids[(size_t) (i / lhs.size ())];
+            const float    fa = REFV[a];
+            // the three float targets: the midpoint (a float: <= 12 significant bits) and its two float neighbours
+            const uint32_t tb = href::fbits ((float) tm);
+            const double   tg[3] = {tm, (double) href::bitsf (tb - 1), (double) href::bitsf (tb + 1)}; // tb is a non-zero normal float
+            for (int op = 0; op < 2; ++op)
+                for (int g = 0; g < 3; ++g)
+                {
+                    // exact for the midpoint itself (<= 42 significant bits); for its float neighbours exact unless a and the
+                    // target are more than 53 bits apart, where d is the nearest double (this only selects candidates: the
+                    // oracle below does not depend on how the rhs was chosen). d != 0: no target is a half value.
+                    const double d  = op == 0 ? tg[g] - (double) fa : (double) fa - tg[g];
+                    const float  fl = (float) d; // nearest float (default rounding mode)
+                    const uint32_t flb = href::fbits (fl);
+                    uint32_t cand[2];
+                    int      nc = 0;
+                    cand[nc++] = flb;
+                    // d not a float: also the float on the other side of d (|d| >= 2^-49, so fl is a non-zero normal float and
+                    // +-1 on its bit pattern is the adjacent float away from / towards zero)
+                    if ((double) fl != d) { ++l_nf; const bool away = std::fabs ((double) fl) < std::fabs (d); cand[nc++] = away ? flb + 1 : flb - 1; }
+                    for (int k = 0; k < nc; ++k)
+                    {
+                        const float    fb = href::bitsf (cand[k]);
+                        const uint32_t rb = href::fbits (fop (op, fa, fb));
+                        const uint16_t want = href::f2h_ref (rb), got = apply<float> (op, a, fb);
+                        ++t.n;
+                        if (is_half_tie (rb & 0x7fffffffu)) ++l_tie; else ++l_off;
+                        if (cand[k] & 0x1fffu) ++l_nh; // bits below the 10-bit half significand: not a half value
+                        if ((want & 0x7fff) == 0x7c00) ++t.ovf; else if ((want & 0x7c00) == 0 && (want & 0x3ff)) ++t.sub;
+                        if (got != want && ++bad[op] <= FAIL_CAP)
+                            R ().fail (std::string (OPW[op]) + ": half::operator" + OPN[op] + "(float).result-at-rounding-boundary", "lhs " + hx (a, 4) + " rhs float " + hx (cand[k], 8), hx (want, 4), hx (got, 4));
+                    }
+                }
         }
-        if (calls && !in && calls[i]) R ().fail ("halfFunction.f-called-outside-domain-or-on-non-finite", dn + " x=half " + hx (i, 4), "0 calls", std::to_string (calls[i]) + " calls");
-        if (calls && in && !calls[i]) R ().fail ("halfFunction.f-not-called-in-domain", dn + " x=half " + hx (i, 4), ">= 1 call", "0 calls");
-    }
+        for (int op = 0; op < 2; ++op) mismatch_total (std::string (OPW[op]) + ": half::operator" + OPN[op] + "(float).result-at-rounding-boundary", bad[op]);
+        done += (long long) (hi - lo);
+        c_exact_tie += l_tie; c_d_not_float += l_nf; c_off_tie += l_off; c_rhs_not_half += l_nh;
+        std::lock_guard<std::mutex> g (mu);
+        total += t;
+    });
+    R ().add ("states", done.load ());
+    R ().add ("transitions", total.n);
+    R ().add ("evaluations", total.n);
+    R ().cls ("arith.float-rhs.result-boundary.float-sum-is-exact-tie", c_exact_tie);
+    R ().cls ("arith.float-rhs.result-boundary.float-sum-beside-tie", c_off_tie);
+    R ().cls ("arith.float-rhs.result-boundary.target-difference-not-a-float", c_d_not_float);
+    R ().cls ("arith.float-rhs.result-boundary.rhs-not-representable-as-half", c_rhs_not_half);
+    R ().cls ("arith.float-rhs.result-boundary.overflow-to-infinity", total.ovf);
+    R ().cls ("arith.float-rhs.result-boundary.subnormal-result", total.sub);
+    std::string bound = "all 63488 finite lhs x " + std::to_string (mids.size ()) + " signed midpoints between adjacent halves (" + (R ().thorough () ? "all" : "those next to every boundary pattern") +
+                        ") x {+=,-=} x {midpoint, float below it, float above it} x 1-2 float rhs bracketing the exact difference";
+    if (complete) R ().stage_done (bound);
+    else R ().stage_partial (std::to_string (done.load ()) + " (lhs, midpoint) pairs of: " + bound);
 }
 
-static void stage_halffunction ()
+// ------------------------------------------------------------------------------------------------
+// text, sequential: every finite half written into ONE stream, separated by single spaces, then read back one after the
+// other from one input stream. Each extraction must succeed, leave the stream usable for the next one and reproduce the
+// pattern ("text output followed by text input reproduces every finite half"); a reader that over-consumes, or leaves
+// failbit/eofbit behind after a value that is followed by more input, breaks the sequence.
+static void stage_text_sequential ()
 {
-    // full domain, proper sub-domains (one-sided, symmetric, subnormal-only, negative-only), degenerate, empty, infinite bound
-    const Dom doms[] = {
-        {0xfbff, 0x7bff, "[-65504,65504]"}, {0x0000, 0x7bff, "[0,65504]"}, {0xbc00, 0x3c00, "[-1,1]"}, {0x0001, 0x03ff, "[2^-24,1023*2^-24] (subnormals)"},
-        {0xfbff, 0xbe00, "[-65504,-1.5]"}, {0x3c00, 0x3c00, "[1,1]"}, {0x3c00, 0xbc00, "[1,-1] (empty)"}, {0xfc00, 0x8000, "[-inf,-0]"}, {0x3555, 0x7c00, "[0.333..,+inf]"}};
-    long long tl[6] = {0, 0, 0, 0, 0, 0};
-    long long tables = 0;
-    std::vector<int> calls (65536);
-    for (int d = -1; d < (int) (sizeof doms / sizeof doms[0]); ++d)
+    long long n = 0;
+    for (int prec : {-1, (int) NL::max_digits10})
     {
-        const Dom* dom = d < 0 ? nullptr : &doms[d];
-        // markers: pairwise distinct and distinct from every value f can return (7777 and 12345 are odd
-        // integers above 2048, hence not halves nor squares of halves; 1e30 is out of range)
-        check_table<float> ("identity", Ident (), dom, -7777.0f, 1e30f, -1e30f, 12345.0f, [] (half x) { return href::bitsf (href::h2f_ref (x.bits ())); }, nullptr, tl);
-        check_table<float> ("square", Square (), dom, -7777.0f, 1e30f, -1e30f, 12345.0f, [] (half x) { float f = href::bitsf (href::h2f_ref (x.bits ())); return f * f; }, nullptr, tl);
-        std::fill (calls.begin (), calls.end (), 0);
-        Recorder rec = {calls.data ()};
-        check_table<uint32_t> ("recorder", rec, dom, 1u, 2u, 3u, 4u, [] (half x) { return 0x10000u + x.bits (); }, calls.data (), tl);
-        tables += 3;
+        std::ostringstream os;
+        if (prec >= 0) os.precision (prec);
+        std::vector<uint16_t> order;
+        for (uint32_t i = 0; i < 65536; ++i)
+            if ((i & 0x7c00) != 0x7c00) order.push_back ((uint16_t) i);
+        for (size_t k = 0; k < order.size (); ++k) { if (k) os << ' '; os << hb (order[k]); }
+        std::istringstream is (os.str ());
+        const char* site_v = prec < 0 ? "text.sequential.default-stream.value" : "text.sequential.precision=max_digits10.value";
+        const char* site_s = prec < 0 ? "text.sequential.default-stream.stream-state" : "text.sequential.precision=max_digits10.stream-state";
+        for (size_t k = 0; k < order.size (); ++k)
+        {
+            half g = hb (0x7e55);
+            is >> g;
+            ++n;
+            const bool last = k + 1 == order.size ();
+            if (is.fail ()) { R ().fail (site_s, "token #" + std::to_string (k) + " (half " + hx (order[k], 4) + ")", "extraction succeeds", "failbit set"); break; }
+            if (!last && is.eof ()) { R ().fail (site_s, "token #" + std::to_string (k) + " (half " + hx (order[k], 4) + ")", "more input follows: no eofbit", "eofbit set"); break; }
+            if (g.bits () != order[k]) R ().fail (site_v, "token #" + std::to_string (k) + " (half " + hx (order[k], 4) + ")", hx (order[k], 4), hx (g.bits (), 4));
+        }
+        // nothing but the values was written: after the last one the stream is exhausted
+        std::string rest;
+        if (is >> rest) R ().fail (site_s, "after the last token", "end of input", "\"" + rest.substr (0, 32) + "\" left over");
     }
-    R ().add ("states", tables * 65536);
-    R ().add ("transitions", tables * 65536);
-    R ().add ("evaluations", tables * 65536);
-    R ().add ("halfFunction_tables", tables);
-    R ().cls ("halfFunction.in-domain", tl[0]); R ().cls ("halfFunction.out-of-domain-default", tl[1]); R ().cls ("halfFunction.+inf", tl[2]);
-    R ().cls ("halfFunction.-inf", tl[3]); R ().cls ("halfFunction.nan", tl[4]); R ().cls ("halfFunction.domain-endpoint", tl[5]);
-    R ().stage_done ("3 functors (identity, square, call recorder) x 10 domains (default arguments, full, 5 proper sub-domains, degenerate, empty, infinite bounds) x all 65536 entries");
+    R ().add ("states", n);
+    R ().add ("transitions", n);
+    R ().add ("evaluations", n);
+    R ().cls ("text.sequential.tokens-read-back-from-one-stream", n);
+    R ().stage_done ("all 63488 finite patterns written to one stream separated by single spaces and read back in sequence x {default stream state, precision = max_digits10}");
 }
+
+// ------------------------------------------------------------------------------------------------
+// halfFunction<T>: harness/c03_halffunction.hpp (shared with the IMATH_HAVE_LARGE_STACK build, c03_largestack.cpp)
+#include "c03_halffunction.hpp"
+void c03_halffunction_largestack (); // c03_largestack.cpp
 
 int main (int argc, char** argv)
 {
@@ -653,8 +768,11 @@ int main (int argc, char** argv)
     if (R ().stage ("round")) stage_round ();
     if (R ().stage ("limits")) stage_limits ();
     if (R ().stage ("text")) stage_text ();
-    if (R ().stage ("halfFunction")) stage_halffunction ();
+    if (R ().stage ("halfFunction")) hf::stage ();
+    if (R ().stage ("halfFunction-large-stack-build")) c03_halffunction_largestack ();
+    if (R ().stage ("text-sequential")) stage_text_sequential ();
     if (R ().stage ("arith-float-rhs")) stage_arith_float ();
+    if (R ().stage ("arith-float-rhs-result-boundaries")) stage_arith_float_boundaries ();
     if (R ().stage ("arith-half-rhs")) stage_arith_half ();
     for (auto& kv : g_mm) R ().add ("mismatching_cases: " + kv.first, kv.second);
     if (!g_mm.empty ()) R ().note ("violation_counts", "arithmetic sites: R().fail is called at most 16 times per operator and chunk of 2^18 pairs; exact totals are in the counters 'mismatching_cases: <site>'");
